@@ -255,6 +255,14 @@ def gen_call(rng, st: State, all_taken):
     elif r < 0.40 and st.ids:
         call["branch_label"] = rng.choice(st.ids)
         lk = "taken-id"
+    elif r < 0.425 and call.get("rev_id") is not None:
+        # a name the call itself introduces: the label spelled like the new revision's own id
+        call["branch_label"] = call["rev_id"] if rng.random() < 0.6 else [gen_label(rng, all_taken), call["rev_id"]]
+        lk = "own-id"
+    elif r < 0.45 and kind == "generate":
+        l = gen_label(rng, all_taken)
+        call["branch_label"] = [l, l] if rng.random() < 0.6 else [l, gen_label(rng, all_taken), l]
+        lk = "same-label-twice"
     call["lk"] = lk
     # depends_on (command.merge has none)
     dk = "none"
@@ -1038,6 +1046,8 @@ BATTERY = [
         {"rev_id": "a1a1", "head": "e1e1"},                                  # repeated id elsewhere
         {"rev_id": "feat", "head": "e1e1"},                                  # an id that is a branch label
         {"rev_id": "f1f1", "head": "e1e1", "branch_label": "feat"},          # taken label: refused before the write
+        {"rev_id": "g1g1", "head": "e1e1", "branch_label": "g1g1"},          # label spelled like the new id: refused before the write
+        {"rev_id": "h1h1", "head": "e1e1", "branch_label": ["twice", "twice"]},  # one label twice in a call: refused before the write
     ]),
     ({"two_locations": True, "sourceless": True, "revision_environment": True, "hooks": True, "timezone": "europe/berlin",
       "file_template": "%(year)d_%(month).2d_%(day).2d_%(hour).2d%(minute).2d_%(second).2d-%(rev)s_%(slug)s", "trunc": 7}, [
